@@ -467,7 +467,17 @@ func (packet *PacketHandler) readData(readLength bool) error {
 			return err
 		}
 	}
-	packet.descriptionBuf.Grow(packet.dataLength)
+	// the length comes from the wire: it includes itself, so anything below 4 is malformed
+	if packet.dataLength < 0 {
+		return ErrMalformedPacketLength
+	}
+	// reserve at most maxPreallocatedDataLength up front: the rest of the buffer grows with the
+	// bytes that really arrive, not with the length the peer declared
+	if packet.dataLength <= maxPreallocatedDataLength {
+		packet.descriptionBuf.Grow(packet.dataLength)
+	} else {
+		packet.descriptionBuf.Grow(maxPreallocatedDataLength)
+	}
 	packet.logger.Debugln("Read data")
 	nn, err := io.CopyN(packet.descriptionBuf, packet.reader, int64(packet.dataLength))
 	return base.CheckReadWrite(int(nn), packet.dataLength, err)
@@ -504,6 +514,12 @@ const WithoutMessageType = 0
 
 // ErrUnsupportedPacketType error when recognized unsupported message type or new added to postgresql wire protocol
 var ErrUnsupportedPacketType = errors.New("unsupported postgresql message type")
+
+// ErrMalformedPacketLength error when the length field of a message is smaller than the length field itself
+var ErrMalformedPacketLength = errors.New("invalid postgresql message length")
+
+// maxPreallocatedDataLength is how much buffer space is reserved for a message before its data arrived
+const maxPreallocatedDataLength = 1 << 20
 
 // ErrNilPendingPacket error when took nil instead of pending packet
 var ErrNilPendingPacket = errors.New("nil pending packet")
